@@ -565,13 +565,20 @@ func (e *Enc) call(fr *Frame, st *State, c *ssa.Call) *State {
 			e.usedTrusted["context.WithValue: Value(key)=val, other keys as in the parent"] = true
 		}
 	}
+	if name == "strconv.Quote" && len(cc.Args) == 1 {
+		if t, ok := fr.vals[c]; ok {
+			e.d.decl("strquote", "(Str) Str")
+			e.assume("(= " + t + " (strquote " + e.val(fr, cc.Args[0]) + "))")
+			e.usedTrusted["strconv.Quote(s) is what %q prints for s"] = true
+		}
+	}
 	if name == "fmt.Sprintf" && len(cc.Args) > 0 {
 		if k, ok := cc.Args[0].(*ssa.Const); ok && k.Value != nil {
 			// a format made of literal text and %s verbs over string arguments is a concatenation
 			if t, ok := fr.vals[c]; ok {
 				if cat := e.sprintfConcat(fr, constant.StringVal(k.Value), c); cat != "" {
 					e.assume("(= " + t + " " + cat + ")")
-					e.usedTrusted["fmt.Sprintf with only %s verbs over strings is concatenation"] = true
+					e.usedTrusted["fmt.Sprintf with only %s and %q verbs over strings is concatenation (of the strings, resp. their quoted forms)"] = true
 				}
 			}
 			if n := sprintfLiteralLen(constant.StringVal(k.Value)); n > 0 {
@@ -622,6 +629,20 @@ func (e *Enc) sprintfConcat(fr *Frame, format string, c *ssa.Call) string {
 			}
 			flush()
 			pieces = append(pieces, e.val(fr, a))
+		case 'q':
+			// %q of a string: the Go-quoted form, an uninterpreted function of the string (strquote)
+			if args == nil || ai >= len(args) {
+				return ""
+			}
+			a := args[ai]
+			ai++
+			b, ok := a.Type().Underlying().(*types.Basic)
+			if !ok || b.Info()&types.IsString == 0 {
+				return ""
+			}
+			flush()
+			e.d.decl("strquote", "(Str) Str")
+			pieces = append(pieces, "(strquote "+e.val(fr, a)+")")
 		default:
 			return ""
 		}
